@@ -57,6 +57,8 @@ pub struct Peek {
     pub kind: u8,
     /// anonymous (zero-sized) payload: tracked by count, not identity
     pub anon: bool,
+    /// payload without drop glue: it has an identity but no ledger record (it cannot report its death)
+    pub plain: bool,
 }
 
 #[derive(Clone, Debug)]
@@ -170,6 +172,7 @@ pub struct Env {
     pub anon_live: [i64; 2],
     pub anon_made: [u64; 2],
     pub anon_dropped: [u64; 2],
+    pub plain_ctr: u64,
     pub mode: Mode,
     pub cur_op: i32,
     pub cb_in_op: u32,
@@ -207,6 +210,7 @@ impl Env {
             anon_live: [0; 2],
             anon_made: [0; 2],
             anon_dropped: [0; 2],
+            plain_ctr: 0,
             mode: Mode::Observe,
             cur_op: -1,
             cb_in_op: 0,
@@ -318,6 +322,13 @@ impl Env {
 
     /// Validates an object a callback received. Returns true when it is a live, known object.
     fn validate(&mut self, what: &str, p: &Peek) -> bool {
+        if p.plain {
+            if p.bad != 0 {
+                self.violate("use-of-nonlive", format!("{what}: {} used as a {}", if p.bad == 1 { "never-initialised slot (poison)" } else { "garbage" }, kname(p.kind)));
+                return false;
+            }
+            return true;
+        }
         if p.anon {
             if self.anon_live[p.kind as usize] <= 0 {
                 self.violate(
@@ -510,6 +521,27 @@ pub fn eq(kind: Cb, truth: bool, a: &Peek, b: &Peek) -> bool {
 pub fn born(kind: u8, class: u32, tag: u32, from: u64) -> u64 {
     let _p = Pause::new();
     with(|e| e.new_obj(kind, class, tag, from))
+}
+
+/// Identity for a payload object without drop glue (not recorded in the ledger).
+pub fn born_plain() -> u64 {
+    let _p = Pause::new();
+    with(|e| {
+        e.seq += 1;
+        e.plain_ctr += 1;
+        (1u64 << 39) | e.plain_ctr
+    })
+}
+
+/// Does this peek denote an object that is alive as far as the simulator can tell?
+pub fn peek_live(p: &Peek) -> bool {
+    if p.anon {
+        return true;
+    }
+    if p.plain {
+        return p.bad == 0;
+    }
+    p.bad == 0 && with(|e| p.id != 0 && (p.id as usize) <= e.objs.len() && e.objs[p.id as usize - 1].live())
 }
 
 pub fn born_anon(kind: u8) {
